@@ -59,6 +59,14 @@ impl Scn {
 
 pub fn run(ctx: &Ctx) -> i32 {
     let mon = Mon::new();
+    if ctx.mode.as_deref() == Some("stress") {
+        // sanitizer sub-run: only the multi-thread part
+        par_cases(ctx, &mon, "stress", 6, |cc, rng, l| {
+            let cfg = if rng.chance(1, 2) { Cfg::Wa } else { Cfg::Exp };
+            with_cfg!(cfg, TC, { stress::<TC>(ctx, cc, rng, l) });
+        });
+        return finish(ctx, &mon, Spec::new("exploration", "multi-thread stress only (sanitizer sub-run)").need("stress_publishes", 100));
+    }
     // ---- exhaustive, bounded preemptions, two publishes
     let n_scn = ctx.tier.pick(16, 64);
     let bound = ctx.tier.pick(1, 2);
